@@ -284,6 +284,16 @@ func numDefs[K any](kind, keyType, tier string, mk func() art.Tree[K, int], ops 
 		for _, f := range fanWindows(tier) {
 			add(numFromBytes(FanUniverse(f), fromByte))
 		}
+		// a node holding every one of the 256 byte values (and the states just below)
+		var setup, free []K
+		for b := 0; b < 256; b++ {
+			if b == 0x00 || b == 0x7f || b == 0x80 || b == 0xff || b == 0x41 {
+				free = append(free, fromByte(byte(b)))
+			} else {
+				setup = append(setup, fromByte(byte(b)))
+			}
+		}
+		add(NumSpec[K]{Name: "FULL256", Setup: setup, Free: free})
 	}
 	return out
 }
